@@ -69,10 +69,12 @@ ConstOK(f, k) == IsConst(f, k) =>
 CalculusOK == \A f \in Families : \A k \in 1..NCoef(f) : dHisCp(f, k) /\ TdSisCp(f, k) /\ ConstOK(f, k)
 
 \* ---- Part B: segment selection on the integer grid
-\* a segment is <<lo, hi>> in boundary ids; position of boundary b is 4b
+\* a segment is <<lo, hi>> in boundary ids; position of boundary b is 4b.  A configuration also fixes the
+\* ORDER in which a NASA-9 species stores its segments (ord: position in the stored list -> segment index):
+\* the property does not ask for an ascending list, and the code scans the list as stored.
 Pos(b) == 4 * b
 InSeg(seg, p) == Pos(seg[1]) <= p /\ p <= Pos(seg[2])
-Configs ==
+Layouts ==
    {[f |-> "nasa7", segs |-> <<<<1, 2>>, <<2, 3>>>>],
     [f |-> "shomate", segs |-> <<<<1, 2>>>>],
     [f |-> "nasa9", segs |-> <<<<1, 2>>>>],
@@ -80,7 +82,19 @@ Configs ==
     [f |-> "nasa9", segs |-> <<<<1, 2>>, <<3, 4>>>>],                 \* gap
     [f |-> "nasa9", segs |-> <<<<1, 2>>, <<2, 3>>, <<3, 4>>>>],
     [f |-> "nasa9", segs |-> <<<<1, 2>>, <<3, 4>>, <<4, 5>>>>],       \* gap then contiguous
-    [f |-> "nasa9", segs |-> <<<<1, 2>>, <<2, 3>>, <<4, 5>>>>]}
+    [f |-> "nasa9", segs |-> <<<<1, 2>>, <<2, 3>>, <<4, 5>>>>],
+    [f |-> "nasa9", segs |-> <<<<1, 2>>, <<2, 3>>, <<3, 4>>, <<4, 5>>>>],     \* four segments (the documented maximum)
+    [f |-> "nasa9", segs |-> <<<<1, 2>>, <<2, 3>>, <<4, 5>>, <<5, 6>>>>]}     \* four segments with a gap
+Identity(n) == [i \in 1..n |-> i]
+Reverse(n) == [i \in 1..n |-> n + 1 - i]
+\* one order that is neither ascending nor descending (n >= 3)
+Mixed(n) == IF n = 3 THEN <<2, 3, 1>> ELSE <<3, 1, 4, 2>>
+OrdersOf(l) == LET n == Len(l.segs) IN
+               IF l.f # "nasa9" \/ n = 1 THEN {Identity(n)}
+               ELSE IF n = 2 THEN {Identity(n), Reverse(n)}
+               ELSE {Identity(n), Reverse(n), Mixed(n)}
+Configs == UNION {{[f |-> l.f, segs |-> l.segs, ord |-> o] : o \in OrdersOf(l)} : l \in Layouts}
+Ascending(c) == c.ord = Identity(Len(c.segs))
 LastB(c) == c.segs[Len(c.segs)][2]
 Positions(c) == 2..(Pos(LastB(c)) + 2)
 
@@ -91,44 +105,52 @@ Required(c, p) ==
    THEN (IF p < Pos(2) THEN {1} ELSE {2})          \* upper segment at T_mid; documented extrapolation outside
    ELSE IF c.f = "shomate" THEN {1}                \* single segment, documented extrapolation (warning)
    ELSE (IF inside = {} THEN {0} ELSE inside)      \* NASA-9: a containing segment, otherwise refused
-\* what the code does
+\* what the code does: NASA-9 scans the segments in stored order and takes the first one that contains T
 Impl(c, p) ==
    IF c.f = "nasa7" THEN (IF p < Pos(c.segs[1][2]) THEN 1 ELSE 2)
    ELSE IF c.f = "shomate" THEN 1
-   ELSE IF \E j \in 1..Len(c.segs) : InSeg(c.segs[j], p)
-        THEN CHOOSE j \in 1..Len(c.segs) : InSeg(c.segs[j], p) /\ \A i \in 1..(j - 1) : ~InSeg(c.segs[i], p)
-        ELSE 0
+   ELSE LET hits == {i \in 1..Len(c.ord) : InSeg(c.segs[c.ord[i]], p)} IN
+        IF hits = {} THEN 0 ELSE c.ord[CHOOSE i \in hits : \A j \in hits : i <= j]
 SelectOK == \A c \in Configs : \A p \in Positions(c) : Impl(c, p) \in Required(c, p)
+\* the stored order is observable only on a shared bound, and is never refused or accepted differently
+OrderOnlyAtSharedBound ==
+   \A c \in Configs : \A d \in Configs :
+      (c.f = d.f /\ c.segs = d.segs) =>
+         \A p \in Positions(c) : Impl(c, p) # Impl(d, p) => Cardinality(Required(c, p)) = 2
 
 \* representatives used for array cases: one position per class
 Reps(c) == {2} \cup {Pos(b) : b \in 1..LastB(c)} \cup {Pos(b) + 2 : b \in 1..LastB(c)}
             \cup {Pos(c.segs[1][2]) - 1, Pos(c.segs[1][2]) + 1}
+\* ... and with the neighbouring doubles of EVERY bound (long arrays)
+RepsAll(c) == Reps(c) \cup {Pos(b) - 1 : b \in 1..LastB(c)} \cup {Pos(b) + 1 : b \in 1..LastB(c)}
 ArrLens == 2..3
-ScalarCasesOf(c) == {[f |-> c.f, segs |-> c.segs, ps |-> <<p>>, acc |-> <<Required(c, p)>>, impl |-> <<Impl(c, p)>>]
-                       : p \in Positions(c)}
+Case(c, ps) == [f |-> c.f, segs |-> c.segs, ord |-> c.ord, ps |-> ps,
+                acc |-> [i \in 1..Len(ps) |-> Required(c, ps[i])],
+                impl |-> [i \in 1..Len(ps) |-> Impl(c, ps[i])]]
+ScalarCasesOf(c) == {Case(c, <<p>>) : p \in Positions(c)}
 ScalarCases == UNION {ScalarCasesOf(c) : c \in Configs}
-ArrayCasesOf(c, n) == {[f |-> c.f, segs |-> c.segs, ps |-> ps,
-                        acc |-> [i \in 1..n |-> Required(c, ps[i])],
-                        impl |-> [i \in 1..n |-> Impl(c, ps[i])]] : ps \in [1..n -> Reps(c)]}
-ArrayCases == UNION {ArrayCasesOf(c, n) : c \in Configs, n \in ArrLens}
+ArrayCasesOf(c, n) == {Case(c, ps) : ps \in [1..n -> Reps(c)]}
+\* all short arrays for the ascending layouts; pairs for the other stored orders
+ArrayCases == UNION {ArrayCasesOf(c, n) : c \in {d \in Configs : Ascending(d)}, n \in ArrLens}
+              \cup UNION {ArrayCasesOf(c, 2) : c \in {d \in Configs : ~Ascending(d)}}
 
 \* longer arrays (lengths 4..12: e.g. a length equal to the number of coefficients makes a term matrix
 \* square), built by walking the sorted representatives with a stride: ascending, shuffled and descending
 RECURSIVE SortedSeq(_)
 SortedSeq(S) == IF S = {} THEN <<>>
                 ELSE LET m == CHOOSE x \in S : \A y \in S : x <= y IN <<m>> \o SortedSeq(S \ {m})
-RepSeq(c) == SortedSeq(Reps(c))
+RepSeq(c) == SortedSeq(RepsAll(c))
 Walk(c, n, stride, off) == LET r == RepSeq(c)  L == Len(r)
                            IN [i \in 1..n |-> r[((off + (i - 1) * stride) % L) + 1]]
-LongCase(c, ps) == [f |-> c.f, segs |-> c.segs, ps |-> ps,
-                    acc |-> [i \in 1..Len(ps) |-> Required(c, ps[i])],
-                    impl |-> [i \in 1..Len(ps) |-> Impl(c, ps[i])]]
+LongCase(c, ps) == Case(c, ps)
 \* the same over the representatives that are not refused (so that NASA-9 arrays are evaluated, not refused)
-InRepSeq(c) == SortedSeq({p \in Reps(c) : Required(c, p) # {0}})
+InRepSeq(c) == SortedSeq({p \in RepsAll(c) : Required(c, p) # {0}})
 WalkIn(c, n, stride, off) == LET r == InRepSeq(c)  L == Len(r)
                              IN [i \in 1..n |-> r[((off + (i - 1) * stride) % L) + 1]]
 LongInCases == {LongCase(c, WalkIn(c, n, st, off)) :
                   c \in {d \in Configs : d.f = "nasa9"}, n \in 4..12, st \in {1, 2, 3}, off \in {0, 1}}
+               \cup {LongCase(c, WalkIn(c, n, Len(InRepSeq(c)) - 1, off)) :   \* descending, never refused
+                  c \in {d \in Configs : d.f = "nasa9"}, n \in 4..12, off \in {0, 2}}
 LongArrayCases == LongInCases \cup {LongCase(c, Walk(c, n, st, off)) :
                      c \in Configs, n \in 4..12, st \in {1, 3, 7}, off \in {0, 1}}
                   \cup {LongCase(c, Walk(c, n, Len(RepSeq(c)) - 1, off)) :        \* descending
